@@ -346,12 +346,15 @@ def main(ctx):
     _hl, _hb = harvest_lengths([_sm, _ru], ["recfile"])
     HARV = tuple(sorted({n for n in _hl if n >= 1000} | {n // 8 for n in _hl if n >= 8000 and n % 8 == 0}))
     ctx.notes.append("large-tables: integer constants harvested from sfile.py, recfile/Util.py, recfile/*.cpp: %r" % (_hb,))
+    # constants above 2e7 read as BYTE sizes of blocks (64 MiB ...): tables of 12-byte rows - a row size that divides no
+    # power of two - just beyond one and two such blocks
+    HARV12 = tuple(sorted({k * b // 12 + d for b in _hb if 20000000 < b <= 2 ** 28 for k in (1, 2) for d in (1, 7)}))
     LARGE = []
     for descr, rows in (
             ([("a", "<i8"), ("x", "<f8")], (4095, 4096, 4097, 65535, 65536, 65537, 131072,          # 16-byte rows
                                             99999, 100000, 100001, 999999, 1000000, 1000001, 2000000)),   # ... and decimal marks
             ([("a", "<i2"), ("x", "<f4"), ("s", "S2")], tuple(m + d for m in _marks(ctx) for d in (-1, 0, 1)) + HARV),   # 8-byte rows, universal marks (mc/longarr.py)
-            ([("a", "<i4"), ("x", ">f8")], (5461, 5462, 87381, 87382)),                             # 12-byte rows
+            ([("a", "<i4"), ("x", ">f8")], (5461, 5462, 87381, 87382) + HARV12),                    # 12-byte rows
             ([("s", "S1024")], (63, 64, 65, 1023, 1024, 1025, 2048)),                               # 1 KiB rows
             ([("s", "S1100000"), ("k", "<i2")], (1, 2))):                                           # a row wider than 1 MiB
         for n in rows:
